@@ -11,8 +11,7 @@ use serde_json::{json, Value};
 use std::collections::{BTreeMap, BTreeSet, HashMap, HashSet};
 use std::sync::atomic::{AtomicU64, Ordering};
 use std::sync::Mutex;
-use vharness::objjson::{doc_from_json, doc_to_json};
-use vharness::refcrypt::menu::{self, Config, DocKind, Leaf, F};
+use vharness::refcrypt::menu::{self, doc_from_portable as doc_from_json, doc_to_portable as doc_to_json, Config, DocKind, IdShape, Leaf, F};
 use vharness::refcrypt::{pdfdoc_code, pdfdoc_encodable, utf8_prep, utf8_prep_full};
 use vharness::{cmp, util, Mode, Run};
 
@@ -45,6 +44,9 @@ impl Abs {
 #[derive(Clone, Copy, PartialEq, Eq, Debug)]
 enum Op {
     Encrypt,
+    /// `doc.encrypt(&doc.encryption_state.clone().unwrap())`: put the protection back with the parameters the
+    /// library kept when it decrypted the document (only where such a state exists)
+    EncryptKept,
     SaveLoad,
     DecUser,
     DecOwner,
@@ -52,12 +54,13 @@ enum Op {
     DecWrong2,
 }
 
-const OPS: [Op; 6] = [Op::Encrypt, Op::SaveLoad, Op::DecUser, Op::DecOwner, Op::DecWrong1, Op::DecWrong2];
+const OPS: [Op; 7] = [Op::Encrypt, Op::EncryptKept, Op::SaveLoad, Op::DecUser, Op::DecOwner, Op::DecWrong1, Op::DecWrong2];
 
 impl Op {
     fn name(self) -> &'static str {
         match self {
             Op::Encrypt => "encrypt",
+            Op::EncryptKept => "encrypt(kept state)",
             Op::SaveLoad => "save_to+load_mem",
             Op::DecUser => "decrypt(user)",
             Op::DecOwner => "decrypt(owner)",
@@ -81,6 +84,12 @@ struct Tuple {
     wrong2: String,
     perms: u64,
     table: bool,
+    /// shape of the trailer's /ID entry
+    id_shape: IdShape,
+    /// depth of the ladders of the deep documents (0: not a deep document)
+    depth: usize,
+    /// the document nests deeper than the reader accepts: save_to+load_mem is not a transition
+    in_memory_only: bool,
     plain: Document,
 }
 
@@ -104,6 +113,8 @@ fn expected_text(inv: &str) -> &'static str {
         "encrypt-on-encrypted-rejected" => "encrypt on an encrypted document returns an error and leaves it unchanged",
         "decrypt-on-unencrypted-rejected" => "decrypt on an unencrypted document returns an error and leaves it unchanged",
         "reload-keeps-plaintext" => "save_to + load_mem of an unencrypted state returns the plaintext document",
+        "kept-state-present" => "after a successful decrypt the document keeps the parameters it was decrypted with (Document::encryption_state is Some)",
+        "re-encrypt-with-kept-state" => "encrypt with the state the library kept returns Ok, the document is encrypted again and decrypts to the plaintext with the user and the owner password",
         "reload-of-encrypted" => "save_to + load_mem of an encrypted state either is still encrypted and equal to the state before saving, or (only if the empty password is the user or owner password) is decrypted to the plaintext",
         _ => "invariant of the C05 model",
     }
@@ -169,7 +180,44 @@ fn diff_docs_sym(expected: &Document, actual: &Document) -> Option<String> {
     if expected.version != actual.version {
         return Some(format!("version {:?} became {:?}", expected.version, actual.version));
     }
-    cmp::diff_objects(&content_objects(expected), &actual.objects).or_else(|| cmp::diff_trailer(&expected.trailer, &actual.trailer))
+    // exact equality first (the structural comparison builds a path string per level, which is quadratic
+    // in the nesting depth of the deep documents); anything not exactly equal goes through cmp::diff_objects
+    let exact = expected.objects.iter().filter(|(_, o)| !is_structural(o)).all(|(id, o)| actual.objects.get(id) == Some(o))
+        && actual.objects.iter().all(|(id, o)| is_structural(o) || expected.objects.get(id).map(|e| !is_structural(e)).unwrap_or(false));
+    let objects = if exact { None } else { cmp::diff_objects(&content_objects(expected), &actual.objects) };
+    objects.or_else(|| cmp::diff_trailer(&expected.trailer, &actual.trailer))
+}
+
+/// For the deep documents: at which nesting depth the first string differs (the path alone is hard to read).
+fn deep_note(t: &Tuple, d: &Document) -> String {
+    if !t.kind.is_deep() {
+        return String::new();
+    }
+    let mut best: Option<(usize, ObjectId)> = None;
+    let mut count = 0;
+    for (id, p) in &t.plain.objects {
+        if let Some(k) = d.objects.get(id).and_then(|o| menu::first_differing_string_depth(p, o)) {
+            count += 1;
+            if best.map(|b| k < b.0).unwrap_or(true) {
+                best = Some((k, *id));
+            }
+        }
+    }
+    match best {
+        Some((k, id)) => format!(
+            "strings differ in {} object(s); the shallowest differing string is enclosed by {} arrays/dictionaries (object {} {}, ladders of depth {}): ",
+            count, k, id.0, id.1, t.depth
+        ),
+        None => String::new(),
+    }
+}
+
+fn short_path(p: &str) -> String {
+    if p.len() <= 140 {
+        p.to_string()
+    } else {
+        format!("{}...({} characters)...{}", &p[..60], p.len() - 100, &p[p.len() - 40..])
+    }
 }
 
 /// The decrypted / plaintext invariant: no /Encrypt, every object equal to the plaintext, nothing extra.
@@ -177,7 +225,7 @@ fn diff_plain(t: &Tuple, d: &Document) -> Option<String> {
     if d.trailer.has(b"Encrypt") {
         return Some("trailer still has /Encrypt".into());
     }
-    diff_docs_sym(&t.plain, d)
+    diff_docs_sym(&t.plain, d).map(|m| if t.kind.is_deep() { format!("{}{}", deep_note(t, d), vharness::run::truncate(&m, 260)) } else { m })
 }
 
 fn outcome_kind<T>(r: &Result<Result<T, lopdf::Error>, String>) -> String {
@@ -348,11 +396,11 @@ fn check_encrypted(t: &Tuple, d: &Document) -> Vec<Failure> {
         let same_shape = menu::zip_leaves(&t.cfg, p, o, &format!("obj({} {})", id.0, id.1), &mut |path, leaf, m, a, b| {
             if a.len() >= 16 && m != F::Identity && a == b {
                 if leaf == Leaf::StrInStreamDict {
-                    sd.push(path.to_string());
+                    sd.push(short_path(path));
                 } else if leaf == Leaf::StrInMetadataDict && !t.cfg.em {
-                    md.push(path.to_string());
+                    md.push(short_path(path));
                 } else {
-                    other.push(path.to_string());
+                    other.push(short_path(path));
                 }
             }
         });
@@ -409,12 +457,16 @@ fn check_encrypted(t: &Tuple, d: &Document) -> Vec<Failure> {
 struct Node {
     abs: Abs,
     reloaded: bool,
+    /// the current (or last) protection of the document was put on with the state the library kept
+    kept: bool,
     doc: Document,
     path: Vec<Op>,
 }
 
+type Key = (Abs, bool, bool);
+
 struct Step {
-    next: Option<(Abs, bool)>,
+    next: Option<Key>,
     doc: Document,
     failures: Vec<Failure>,
     outcome: String,
@@ -436,19 +488,29 @@ fn apply_op(t: &Tuple, state: &EncryptionState, node: &Node, op: Op) -> Step {
     let enc = node.abs.encrypted();
     let mut d = node.doc.clone();
     match op {
-        Op::Encrypt => {
-            let res = util::guard(|| d.encrypt(state));
+        Op::Encrypt | Op::EncryptKept => {
+            let kept_state = node.doc.encryption_state.clone();
+            let res = if op == Op::Encrypt {
+                util::guard(|| d.encrypt(state))
+            } else {
+                match &kept_state {
+                    Some(k) => util::guard(|| d.encrypt(k)),
+                    // (the explorer does not offer this transition where the library kept no state)
+                    None => return Step { next: None, doc: d, failures: vec![], outcome: "not applicable".into() },
+                }
+            };
             let kind = outcome_kind(&res);
             if enc {
                 let failures = rejected("encrypt-on-encrypted-rejected", &node.doc, &d, &kind, None);
                 return Step { next: None, doc: d, failures, outcome: kind };
             }
+            let inv = if op == Op::Encrypt { "encrypt-succeeds" } else { "re-encrypt-with-kept-state" };
             if !matches!(res, Ok(Ok(()))) {
-                let failures = vec![Failure { inv: "encrypt-succeeds", detail: format!("returned {}", kind), finding: None, hard: true }];
+                let failures = vec![Failure { inv, detail: format!("returned {}", kind), finding: None, hard: true }];
                 return Step { next: None, doc: d, failures, outcome: kind };
             }
-            let failures = check_encrypted(t, &d);
-            Step { next: Some((Abs::EncMem, node.reloaded)), doc: d, failures, outcome: kind }
+            let failures = if op == Op::EncryptKept { judge_reencrypted(t, &d) } else { check_encrypted(t, &d) };
+            Step { next: Some((Abs::EncMem, node.reloaded, op == Op::EncryptKept)), doc: d, failures, outcome: kind }
         }
         Op::SaveLoad => {
             let loaded = util::save_bytes(&node.doc, t.table).and_then(|b| util::load(&b));
@@ -465,7 +527,7 @@ fn apply_op(t: &Tuple, state: &EncryptionState, node: &Node, op: Op) -> Step {
                             Some(m) => vec![Failure { inv: "reload-keeps-plaintext", detail: m, finding: None, hard: true }],
                             None => vec![],
                         };
-                        Step { next: Some((node.abs, true)), doc: l, failures, outcome: "plaintext".into() }
+                        Step { next: Some((node.abs, true, node.kept)), doc: l, failures, outcome: "plaintext".into() }
                     }
                 };
             }
@@ -486,7 +548,7 @@ fn apply_op(t: &Tuple, state: &EncryptionState, node: &Node, op: Op) -> Step {
                         } else {
                             failures = check_encrypted(t, &l);
                         }
-                        Step { next: Some((Abs::EncReloaded, true)), doc: l, failures, outcome: "still encrypted".into() }
+                        Step { next: Some((Abs::EncReloaded, true, node.kept)), doc: l, failures, outcome: "still encrypted".into() }
                     } else {
                         let plain_diff = diff_plain(t, &l);
                         let mut failures = vec![];
@@ -509,7 +571,7 @@ fn apply_op(t: &Tuple, state: &EncryptionState, node: &Node, op: Op) -> Step {
                             });
                         }
                         let abs = if user_empty { Abs::DecUser } else { Abs::DecOwner };
-                        Step { next: Some((abs, true)), doc: l, failures, outcome: "auto-decrypted".into() }
+                        Step { next: Some((abs, true, node.kept)), doc: l, failures, outcome: "auto-decrypted".into() }
                     }
                 }
             }
@@ -543,7 +605,16 @@ fn apply_op(t: &Tuple, state: &EncryptionState, node: &Node, op: Op) -> Step {
                 )),
             };
             match problem {
-                None => Step { next: Some((abs, node.reloaded)), doc: d, failures: vec![], outcome: kind },
+                None => {
+                    // Document::encryption_state: "the parameters that were used to decrypt this document if the
+                    // document has been decrypted"
+                    let failures = if d.encryption_state.is_some() {
+                        vec![]
+                    } else {
+                        vec![Failure { inv: "kept-state-present", detail: "decrypt returned Ok and Document::encryption_state is None".into(), finding: None, hard: false }]
+                    };
+                    Step { next: Some((abs, node.reloaded, node.kept)), doc: d, failures, outcome: kind }
+                }
                 Some(p) => {
                     let finding = if op == Op::DecOwner { classify_owner_key(t, &node.doc, pw) } else { None }.or_else(|| classify_long_password(t, pw));
                     Step { next: None, doc: d, failures: vec![Failure { inv, detail: p, finding, hard: true }], outcome: kind }
@@ -594,6 +665,9 @@ fn case_json(t: &Tuple, path: &[Op]) -> Value {
         "wrong2": t.wrong2,
         "perms": t.perms,
         "table": t.table,
+        "id_shape": t.id_shape.name(),
+        "ladder_depth": t.depth,
+        "in_memory_only": t.in_memory_only,
         "path": path.iter().map(|o| o.name()).collect::<Vec<_>>(),
         "plain": doc_to_json(&t.plain),
     })
@@ -617,6 +691,9 @@ fn tuple_from_case(v: &Value) -> Tuple {
         wrong2: v["wrong2"].as_str().unwrap_or("").to_string(),
         perms: v["perms"].as_u64().unwrap_or(0),
         table: v["table"].as_bool().unwrap_or(true),
+        id_shape: IdShape::from_name(v["id_shape"].as_str().unwrap_or("hex")),
+        depth: v["ladder_depth"].as_u64().unwrap_or(0) as usize,
+        in_memory_only: v["in_memory_only"].as_bool().unwrap_or(false),
         plain,
     }
 }
@@ -630,7 +707,7 @@ fn signature(f: &[Failure]) -> Sig {
 /// Execute `path` from the plaintext document on the real code; returns the failures of the last step.
 fn run_path(t: &Tuple, path: &[Op]) -> Result<Vec<Failure>, String> {
     let state = menu::build_state(&t.cfg, &t.plain, &t.user, &t.owner, t.perms)?;
-    let mut node = Node { abs: Abs::Plain, reloaded: false, doc: t.plain.clone(), path: vec![] };
+    let mut node = Node { abs: Abs::Plain, reloaded: false, kept: false, doc: t.plain.clone(), path: vec![] };
     for (i, op) in path.iter().enumerate() {
         let step = apply_op(t, &state, &node, *op);
         if i + 1 == path.len() {
@@ -639,8 +716,8 @@ fn run_path(t: &Tuple, path: &[Op]) -> Result<Vec<Failure>, String> {
         if step.failures.iter().any(|f| f.hard) {
             return Err(format!("step {} ({}) already fails: {:?}", i, op.name(), step.failures));
         }
-        if let Some((abs, reloaded)) = step.next {
-            node = Node { abs, reloaded, doc: step.doc, path: vec![] };
+        if let Some((abs, reloaded, kept)) = step.next {
+            node = Node { abs, reloaded, kept, doc: step.doc, path: vec![] };
         }
     }
     Ok(vec![])
@@ -651,6 +728,7 @@ fn run_path(t: &Tuple, path: &[Op]) -> Result<Vec<Failure>, String> {
 struct Artefact<'a> {
     abs: Abs,
     reloaded: bool,
+    kept: bool,
     op: Op,
     pre: &'a Document,
     /// result of a successful `encrypt` (the only randomised transition)
@@ -661,8 +739,35 @@ struct Artefact<'a> {
 fn judge(t: &Tuple, state: &EncryptionState, a: &Artefact) -> Vec<Failure> {
     match a.post {
         Some(post) if a.op == Op::Encrypt && !a.abs.encrypted() => check_encrypted(t, post),
-        _ => apply_op(t, state, &Node { abs: a.abs, reloaded: a.reloaded, doc: a.pre.clone(), path: vec![] }, a.op).failures,
+        // (a document re-encrypted with the kept state: the captured result is judged; the kept state itself is
+        // not part of a replay file)
+        Some(post) if a.op == Op::EncryptKept && !a.abs.encrypted() => judge_reencrypted(t, post),
+        _ => apply_op(t, state, &Node { abs: a.abs, reloaded: a.reloaded, kept: a.kept, doc: a.pre.clone(), path: vec![] }, a.op).failures,
     }
+}
+
+/// The checks `apply_op` makes on the result of `encrypt(kept state)`, on a captured document.
+fn judge_reencrypted(t: &Tuple, post: &Document) -> Vec<Failure> {
+    let r = t.cfg.revision();
+    let inv = "re-encrypt-with-kept-state";
+    let mut failures = check_encrypted(t, post);
+    if failures.is_empty() && !same_pw(r, &t.user, &t.owner) && !(r <= 4 && same_pw(r, &t.owner, "")) {
+        let mut c = post.clone();
+        let ro = try_decrypt(&mut c, &t.owner);
+        let problem = match &ro {
+            Ok(Ok(())) => diff_plain(t, &c),
+            _ => Some(outcome_kind(&ro)),
+        };
+        if let Some(p) = problem {
+            failures.push(Failure { inv, detail: format!("decrypt(owner) of the re-encrypted document: {}", p), finding: classify_long_password(t, &t.owner), hard: true });
+        }
+    }
+    for f in failures.iter_mut() {
+        if f.inv == "encrypt-succeeds" || f.inv == "encrypted-state-decryptable" {
+            f.inv = inv;
+        }
+    }
+    failures
 }
 
 fn invariants(f: &[Failure]) -> BTreeSet<String> {
@@ -691,6 +796,10 @@ fn explore(run: &Run, t: &Tuple) -> Stats {
             // answer: the property is then vacuous for this tuple
             if t.cfg.revision() <= 4 && (!pdfdoc_encodable(&t.user) || !pdfdoc_encodable(&t.owner)) {
                 run.add("tuples_refused_unencodable_password", 1);
+            } else if t.cfg.revision() <= 4 && !t.id_shape.usable() {
+                // Algorithm 2 (R <= 4) hashes the first element of /ID: without one there is nothing to derive the
+                // key from, and refusing is a legitimate answer (revisions 5 and 6 never use the identifier)
+                run.add("tuples_refused_no_usable_file_identifier", 1);
             } else {
                 run.fail(None, case_json(t, &[]), &e, "EncryptionState can be built for a legal configuration");
             }
@@ -698,13 +807,21 @@ fn explore(run: &Run, t: &Tuple) -> Stats {
         }
     };
     run.eval(1);
-    let mut seen: HashSet<(Abs, bool)> = HashSet::new();
-    seen.insert((Abs::Plain, false));
-    let mut frontier = vec![Node { abs: Abs::Plain, reloaded: false, doc: t.plain.clone(), path: vec![] }];
+    let mut seen: HashSet<Key> = HashSet::new();
+    seen.insert((Abs::Plain, false, false));
+    let mut frontier = vec![Node { abs: Abs::Plain, reloaded: false, kept: false, doc: t.plain.clone(), path: vec![] }];
     for _depth in 0..DEPTH {
         let mut next = vec![];
         for node in &frontier {
             for op in OPS {
+                // a document nested deeper than the reader accepts cannot be written and read back
+                if op == Op::SaveLoad && t.in_memory_only {
+                    continue;
+                }
+                // there is a kept state only after a decrypt (by the caller or by the loader)
+                if op == Op::EncryptKept && node.doc.encryption_state.is_none() {
+                    continue;
+                }
                 st.transitions += 1;
                 run.eval(1);
                 let step = apply_op(t, &state, node, op);
@@ -718,8 +835,8 @@ fn explore(run: &Run, t: &Tuple) -> Stats {
                     // (the state before it and, for encrypt, the encrypted document lopdf produced). Re-running
                     // the path would draw new random salts/IVs; a failure that depends on them is still a
                     // violation and the captured document is its witness.
-                    let produced = op == Op::Encrypt && !node.abs.encrypted() && step.outcome == "Ok";
-                    let art = Artefact { abs: node.abs, reloaded: node.reloaded, op, pre: &node.doc, post: if produced { Some(&step.doc) } else { None } };
+                    let produced = (op == Op::Encrypt || op == Op::EncryptKept) && !node.abs.encrypted() && step.outcome == "Ok";
+                    let art = Artefact { abs: node.abs, reloaded: node.reloaded, kept: node.kept, op, pre: &node.doc, post: if produced { Some(&step.doc) } else { None } };
                     let sig = signature(&step.failures);
                     let mut findings_stable = true;
                     for _ in 0..2 {
@@ -739,10 +856,14 @@ fn explore(run: &Run, t: &Tuple) -> Stats {
                     }
                     for f in &step.failures {
                         let mut cj = case_json(t, &path);
-                        cj["artefact"] = json!({
-                            "abstract_state": node.abs.name(), "reloaded": node.reloaded, "transition": op.name(),
-                            "before": doc_to_json(art.pre), "after_encrypt": art.post.map(doc_to_json),
-                        });
+                        // (a replay file cannot carry the kept state: when encrypt(kept state) itself fails the replay
+                        // executes the path afresh instead of judging captured documents)
+                        if !(op == Op::EncryptKept && art.post.is_none()) {
+                            cj["artefact"] = json!({
+                                "abstract_state": node.abs.name(), "reloaded": node.reloaded, "kept": node.kept, "transition": op.name(),
+                                "before": doc_to_json(art.pre), "after_encrypt": art.post.map(doc_to_json),
+                            });
+                        }
                         run.fail(if findings_stable { f.finding } else { None }, cj, &format!("[{}] after {}: {}", f.inv, op.name(), f.detail), expected_text(f.inv));
                     }
                 }
@@ -754,7 +875,7 @@ fn explore(run: &Run, t: &Tuple) -> Stats {
                         st.reached_encrypted = true;
                     }
                     if seen.insert(key) {
-                        next.push(Node { abs: key.0, reloaded: key.1, doc: step.doc, path });
+                        next.push(Node { abs: key.0, reloaded: key.1, kept: key.2, doc: step.doc, path });
                     }
                 }
             }
@@ -771,9 +892,61 @@ struct Spec {
     pair: usize,
     perms: u64,
     table: bool,
+    id_shape: IdShape,
+    depth: usize,
 }
 
-fn specs(run: &Run) -> (Vec<Spec>, u64) {
+/// Ladder depths of the two deep documents: the deepest nesting the reader accepts (measured), and a depth
+/// far beyond it that still covers 256, 512, 1000 and 1024.
+#[derive(Clone, Copy)]
+struct Depths {
+    loadable: usize,
+    memory: usize,
+}
+
+const DEEP_MEMORY_DEPTH: usize = 1100;
+
+/// Largest ladder depth for which the deep document survives save_to + load_mem unchanged.
+fn measure_reader_limit() -> usize {
+    let mut best = 0;
+    for d in 64..=200 {
+        let doc = menu::build_deep(DocKind::DeepLoadable, d, &menu::id_of_len(16));
+        let ok = [true, false].iter().all(|table| match util::save_bytes(&doc, *table).and_then(|b| util::load(&b)) {
+            Ok(l) => diff_docs_sym(&doc, &l).is_none(),
+            Err(_) => false,
+        });
+        if ok {
+            best = d;
+        } else if best > 0 {
+            break;
+        }
+    }
+    best
+}
+
+/// Configurations the file-identifier shapes are crossed with: one per key-derivation variant.
+fn id_family_configs() -> Vec<Config> {
+    use vharness::refcrypt::menu::Ver;
+    menu::configs()
+        .into_iter()
+        .filter(|c| match c.ver {
+            Ver::V1 => true,
+            Ver::V2(b) => b == 40 || b == 128,
+            Ver::V4 => c.stm == c.strf && c.stm != F::Identity,
+            Ver::R5 => true,
+            Ver::V5 => c.stm == F::Aes256 && c.strf == F::Aes256,
+        })
+        .collect()
+}
+
+fn main_kinds() -> Vec<DocKind> {
+    let mut v = DocKind::C05_ALL.to_vec();
+    v.push(DocKind::CryptArray);
+    v.push(DocKind::CryptBare);
+    v
+}
+
+fn specs(run: &Run, depths: Depths) -> (Vec<Spec>, u64) {
     let configs = menu::configs();
     let pairs = menu::password_pairs();
     let perms = menu::perm_menu();
@@ -782,8 +955,8 @@ fn specs(run: &Run) -> (Vec<Spec>, u64) {
     const M: u64 = 97;
     for (ci, cfg) in configs.iter().enumerate() {
         for pi in 0..pairs.len() {
-            for (ki, kind) in DocKind::C05_ALL.iter().enumerate() {
-                if *kind == DocKind::Crypt && !cfg.has_filters() {
+            for (ki, kind) in main_kinds().iter().enumerate() {
+                if kind.needs_filters() && !cfg.has_filters() {
                     continue;
                 }
                 // revision 6 costs ~0.5 CPU-s per tuple (Algorithm 2.B runs ~20 times): the quick bound takes
@@ -808,9 +981,46 @@ fn specs(run: &Run) -> (Vec<Spec>, u64) {
                             (rest - 1) % M == run.seed % M
                         };
                         if take {
-                            out.push(Spec { kind: *kind, cfg: cfg.clone(), pair: pi, perms: *p, table });
+                            out.push(Spec { kind: *kind, cfg: cfg.clone(), pair: pi, perms: *p, table, id_shape: IdShape::Hex, depth: 0 });
                         }
                     }
+                }
+            }
+        }
+    }
+    let all = menu::all_flags();
+    // --- deep-nesting family: both ladder documents x every configuration x password pairs (nesting does not
+    // interact with the password pair or the permission word: quick takes the pair with two distinct passwords and
+    // the one whose empty user password makes the loader decrypt; thorough every pair), permissions = all
+    for (ci, cfg) in configs.iter().enumerate() {
+        for (ki, kind) in [DocKind::DeepLoadable, DocKind::DeepMemory].into_iter().enumerate() {
+            for (pi, pair) in pairs.iter().enumerate() {
+                if !run.thorough && pair.0 != "distinct" && pair.0 != "empty_user" {
+                    continue;
+                }
+                // revision 6, thorough: the two quick pairs and every third of the others
+                if cfg.revision() == 6 && pair.0 != "distinct" && pair.0 != "empty_user" && (ci + ki + pi) % 3 != 0 {
+                    continue;
+                }
+                let depth = if kind == DocKind::DeepLoadable { depths.loadable } else { depths.memory };
+                out.push(Spec { kind, cfg: cfg.clone(), pair: pi, perms: all, table: (ci + ki + pi) % 2 == 0, id_shape: IdShape::Hex, depth });
+            }
+        }
+    }
+    // --- file-identifier family: the page document with every other shape of the trailer's /ID entry x one
+    // configuration per key-derivation variant x every password pair, permissions = all
+    for (ci, cfg) in id_family_configs().iter().enumerate() {
+        for (si, shape) in IdShape::ALL.into_iter().enumerate() {
+            if shape == IdShape::Hex {
+                continue;
+            }
+            for pi in 0..pairs.len() {
+                for (ki, kind) in [DocKind::Page, DocKind::Strings].into_iter().enumerate() {
+                    // quick: the page document; revision 6 every second (shape, pair)
+                    if !run.thorough && (ki > 0 || (cfg.revision() == 6 && (ci + si + pi) % 2 != 0)) {
+                        continue;
+                    }
+                    out.push(Spec { kind, cfg: cfg.clone(), pair: pi, perms: all, table: (ci + si + pi) % 2 == 0, id_shape: shape, depth: 0 });
                 }
             }
         }
@@ -832,7 +1042,17 @@ fn build_tuple(s: &Spec) -> Tuple {
         owner,
         perms: s.perms,
         table: s.table,
-        plain: menu::build_doc(s.kind, &s.cfg, &menu::id_of_len(16), false),
+        id_shape: s.id_shape,
+        depth: s.depth,
+        in_memory_only: s.kind == DocKind::DeepMemory,
+        plain: {
+            let id0 = menu::id_of_len(16);
+            let mut d = if s.kind.is_deep() { menu::build_deep(s.kind, s.depth, &id0) } else { menu::build_doc(s.kind, &s.cfg, &id0, false) };
+            if s.id_shape != IdShape::Hex {
+                s.id_shape.apply(&mut d, &id0);
+            }
+            d
+        },
     }
 }
 
@@ -845,20 +1065,32 @@ fn main() {
         replay(&run, &path);
     }
     run.rule(
-        "start tuples = document menu (8 documents hitting every path of encrypt_object/decrypt_object, incl. non-stream dictionaries typed /Metadata and a document loaded from an object-stream file and edited afterwards) x handler configurations \
+        "start tuples = document menu (10 documents hitting every path of encrypt_object/decrypt_object, incl. non-stream dictionaries typed /Metadata, a document loaded from an object-stream file and edited afterwards, Crypt filter parameters in the array form of /DecodeParms and Crypt filters without /DecodeParms) x handler configurations \
          (V1; V2 x 12 key lengths; V4 x {RC4,AES-128,Identity}^2 x EncryptMetadata x two ways of naming Identity; R5; V5 x {AES-256,Identity}^2) \
          x 9 password pairs x permission sets {all, none, each single flag} x cross-reference format {table, stream} (revision 6: one format per tuple, alternating, and permission sets {all, none, one single flag in rotation}), enumerated in a fixed order without repetition; from each tuple a BFS to \
-         depth 4 over 6 transitions on the real Document, deduplicated on (abstract state, has-passed-through-save/load); a tuple is non-trivial \
+         depth 4 over 7 transitions on the real Document (encrypt, encrypt with the state the library kept after a decrypt, save_to+load_mem, decrypt with the user / owner / two wrong passwords), deduplicated on (abstract state, has-passed-through-save/load, protected-with-the-kept-state); \
+         plus the deep-nesting family: two documents of 'ladders' (a string at EVERY nesting depth 1..D inside arrays, dictionaries, both alternating either way, and a stream dictionary; D = the deepest nesting the reader accepts, measured at start-up, resp. D = 1100 in memory only, where save_to+load_mem is not a transition; plus a 1030-element array and a 260-entry dictionary) x every configuration x password pairs; \
+         plus the file-identifier family: the trailer's /ID as literal strings, with an empty first string, with one element, absent, an empty array, with an integer or a name as first element, a string instead of an array x one configuration per key-derivation variant x 9 password pairs (revisions 5/6 never use the identifier: everything must work; revisions <= 4 without a first string: lopdf may refuse to build the state); a tuple is non-trivial \
          when an encrypted state was reached; states = distinct (tuple, abstract state) pairs reached; a trace is a path whose last transition \
          satisfied every invariant",
     );
-    run.assume("documents carry a 16-byte file identifier (required input of Algorithm 2 for R <= 4); legal key lengths only");
+    run.assume("documents carry a 16-byte file identifier (required input of Algorithm 2 for R <= 4) except in the file-identifier family; there, for R <= 4 and an /ID whose first element is not a string, refusing to build the encryption state is accepted (ISO 32000-1 requires /ID in an encrypted document); legal key lengths only");
+    run.assume("Document::encryption_state is documented as 'the parameters that were used to decrypt this document if the document has been decrypted': after a successful decrypt it must be Some, and encrypting with it must give a document both passwords open");
+    run.assume("documents nested deeper than the reader accepts (measured: the largest ladder depth that survives save_to+load_mem) are explored in memory only");
     run.assume("passwords are judged by the standard's equivalence: first 32 PDFDocEncoding bytes (R <= 4), SASLprep/UTF-8 truncated to 127 bytes (R >= 5); a password with characters outside PDFDocEncoding equals only itself");
     run.assume("an empty owner password next to a non-empty user password (R <= 4) means 'no owner password': decrypt(\"\") may either open the document correctly or be rejected");
     run.assume("the loader may or may not auto-decrypt when the empty password is the user or owner password; both are accepted, garbage or a failing load is not");
     run.assume("IVs, salts and U padding are random: ciphertext is never compared, only decrypted content; the documents around every failing transition are captured and the transition is re-evaluated twice on them (same invariants required)");
     run.assume("object numbers <= 65538 in saved documents (writer cost is linear in max_id); Identity-filtered objects are not required to stay plaintext (the statement does not say so)");
-    let (list, rest) = specs(&run);
+    let limit = measure_reader_limit();
+    if !(64..200).contains(&limit) {
+        eprintln!("MACHINERY: cannot measure the nesting depth the reader accepts (got {})", limit);
+        std::process::exit(3);
+    }
+    let depths = Depths { loadable: limit, memory: DEEP_MEMORY_DEPTH };
+    run.set("reader_nesting_limit_measured", json!(limit));
+    run.set("ladder_depths", json!({"within_reader_limit": depths.loadable, "in_memory_only": depths.memory, "strings_at_every_depth": true}));
+    let (list, rest) = specs(&run, depths);
     let total = Mutex::new(Stats::default());
     let samples: Mutex<Vec<Value>> = Mutex::new(vec![]);
     let done = AtomicU64::new(0);
@@ -903,7 +1135,11 @@ fn main() {
         json!(cpu.into_inner().unwrap().into_iter().map(|(k, v)| (k, (v * 10.0).round() / 10.0)).collect::<BTreeMap<String, f64>>()),
     );
     run.set("configurations", json!(menu::configs().len()));
-    run.set("documents", json!(DocKind::C05_ALL.iter().map(|d| d.name()).collect::<Vec<_>>()));
+    run.set("documents", json!(main_kinds().iter().chain([DocKind::DeepLoadable, DocKind::DeepMemory].iter()).map(|d| d.name()).collect::<Vec<_>>()));
+    run.set("file_identifier_shapes", json!(IdShape::ALL.iter().map(|x| x.name()).collect::<Vec<_>>()));
+    let fam = |f: &dyn Fn(&Spec) -> bool| list.iter().filter(|s| f(s)).count();
+    run.set("start_tuples_deep_nesting_family", json!(fam(&|s| s.kind.is_deep())));
+    run.set("start_tuples_file_identifier_family", json!(fam(&|s| s.id_shape != IdShape::Hex)));
     run.set("password_pairs", json!(menu::password_pairs().iter().map(|p| p.0).collect::<Vec<_>>()));
     run.set("depth", json!(DEPTH));
     if !run.thorough {
@@ -930,6 +1166,7 @@ fn replay(run: &Run, path: &std::path::Path) -> ! {
         let art = Artefact {
             abs: abs_from_name(av["abstract_state"].as_str().unwrap_or("")),
             reloaded: av["reloaded"].as_bool().unwrap_or(false),
+            kept: av["kept"].as_bool().unwrap_or(false),
             op: av["transition"].as_str().and_then(Op::from_name).unwrap_or(Op::Encrypt),
             pre: &pre,
             post: post.as_ref(),
